@@ -16,7 +16,7 @@ VARIABLES v_lvl, v_idx
 Go(id) == [t |-> "go", id |-> id]
 Operands == <<
   Null, Bool(TRUE), Bool(FALSE), IntV(0), IntV(1), IntV(0 - 1), IntV(3), Num(96), Num(32), Num(0 - 16), Str(S2B("-0.9")), IntV(1000), IntV(0 - 1000), Num(6400001),
-  Str(<<>>), Str(S2B("a")), Str(S2B("1.5")), Str(<<195, 169>>), Str(S2B("abc def")),
+  Str(<<>>), Str(S2B("a")), Str(S2B("1.5")), Str(<<195, 169>>), Str(S2B("abc def")), Str(S2B("now")), Go("time:2006-01-02T15:04:05Z"),
   Arr(<<>>), Arr(<<IntV(1), IntV(2)>>), Arr(<<Null>>), Hash(<< <<S2B("k"), IntV(1)>> >>), Hash(<<>>),
   Go("slice:int:1,2"), Go("map:is:1=a"), Go("struct:person"), Go("ptr:struct:person"), Go("nilptr:person"), Go("nilptr:slice"),
   Go("stringer:abc"), Go("num:int8:192"), Go("big:uint64:max"), Go("decimal:96"), Go("safe:1:str:abc"), Go("func"), Go("chan"),
@@ -66,7 +66,10 @@ TwigFilters == << "abs", "default", "batch", "capitalize", "convert_encoding", "
                   "round", "slice", "sort", "split", "striptags", "title", "trim", "upper", "url_encode", "escape" >>
 NF == Len(TwigFilters)
 FArgs == << Null, IntV(0), IntV(2), IntV(0 - 1), Str(S2B("a")), Str(<<>>), Arr(<<IntV(1)>>), Hash(<< <<S2B("a"), Str(S2B("b"))>> >>),
-            Str(S2B("ceil")), Go("slice:int:1,2"), Bool(TRUE) >>
+            Str(S2B("ceil")), Go("slice:int:1,2"), Bool(TRUE),
+            (* strings that are formats, separators, modifiers: ending in an escape character, with a lone %, with every date letter *)
+            Str(<<89, 45, 109, 45, 100, 32, 92>>), Str(<<92>>), Str(S2B("%d %s %")), Str(S2B("jS F Y H:i:s D N w z W t L o y a A B g G h e I O P T Z c r U u")),
+            Str(S2B("+1 day")), Str(S2B(",")), IntV(100) >>
 NFA == Len(FArgs)
 (* argument lists: none, one, two *)
 FCase(j) ==
@@ -80,7 +83,10 @@ FCase(j) ==
 NFil == NF * NO * (1 + NFA + NFA * NFA)
 
 Total == NOps + NFil
-Picked == (0..(NOps - 1)) \cup {NOps + SeedMod(FStride) + FStride * m : m \in 0..((NFil - 1 - SeedMod(FStride)) \div FStride)}
+(* every filter x every value with no argument and with every single argument; two-argument lists by a seeded stride *)
+NFil1 == NF * NO * (1 + NFA)
+Picked == (0..(NOps + NFil1 - 1))
+          \cup {NOps + NFil1 + SeedMod(FStride) + FStride * m : m \in 0..((NFil - NFil1 - 1 - SeedMod(FStride)) \div FStride)}
 Init == GenInit(v_lvl, v_idx)
 Next == GenNext(v_lvl, v_idx, Picked, 64)
 
